@@ -136,6 +136,11 @@ def run_case(case):
         try:
             M.write_sbml_model(path, stochastic_model=case["stochastic"])
         except Exception as e:
+            if "zz_scribbled" in str(e) or "zz_extra" in str(e):
+                # the export tripped over what the harness wrote into ITS OWN lists / dictionaries after the model was built
+                return {"viol": [{"key": "%s/export-follows-callers-containers" % PROPERTY,
+                                  "msg": "export raised %r: the model still refers to the caller's own lists / dictionaries" % (e,)}],
+                        "counters": dict(C), "nontrivial": True}
             C["rejected_at_export"] += 1
             return {"viol": [], "counters": dict(C), "nontrivial": False, "refused": repr(e)[:150]}
         d = L.readSBML(path)
